@@ -457,9 +457,9 @@ func c03e(c *Ctx) {
 		okKey := keyShape(lf, key) == "tar-header-name"
 		_, okData := lf.IsCallResult(data, 0, Callee{"io", "", "ReadAll"})
 		okOpts := false
-		if o := objOf(info, opts); o != nil {
+		if o := objOf(info, lf.copyRoot(opts)); o != nil {
 			for _, u := range f.Calls(Callee{"encoding/json", "", "Unmarshal"}) {
-				if len(u.Call.Args) == 2 && objOf(info, u.Call.Args[1]) == o {
+				if len(u.Call.Args) == 2 && objOf(info, f.copyRoot(u.Call.Args[1])) == o {
 					okOpts = true
 				}
 			}
